@@ -94,10 +94,15 @@ impl Database {
                                         change.key,
                                         pendding_conflict.len()
                                     );
-                                    (
-                                        pendding_conflict.last().unwrap().to_string(),
-                                        version + pendding_conflict.len() as i32,
-                                    )
+                                    match pendding_conflict.last() {
+                                        Some(last_conflict) => (
+                                            last_conflict.to_string(),
+                                            version + pendding_conflict.len() as i32,
+                                        ),
+                                        // Marked as conflicted without any conflict on record,
+                                        // treat it as the first conflict of the key
+                                        None => (old_value.to_string(), old_version),
+                                    }
                                 } else {
                                     (old_value.to_string(), old_version)
                                 };
